@@ -89,9 +89,13 @@ def prepare_specdir(workdir):
 
 
 def tlc(workdir, module, cfg_text, env=None, workers=NCPU, timeout=1800, extra=(), xmx="6g",
-        tag=None, deque=False):
-    """Run TLC on spec/<module>.tla with the given cfg text.  Returns TlcResult."""
+        tag=None, deque=False, modules=None):
+    """Run TLC on spec/<module>.tla with the given cfg text.  Returns TlcResult.
+    `modules`: {name: text} of generated MC modules (constants that a cfg cannot express) written next to the specs."""
     sd = prepare_specdir(workdir)
+    for mn, mt in (modules or {}).items():
+        with open(os.path.join(sd, mn + ".tla"), "w") as f:
+            f.write(mt)
     tag = tag or module
     cfg = os.path.join(sd, "%s__%s.cfg" % (module, tag))
     with open(cfg, "w") as f:
